@@ -725,6 +725,7 @@ func (ctxLister) ListPods(ctx context.Context, ns string) ([]*corev1.Pod, error)
 type LongLived struct {
 	A   *admission.Admission
 	Cfg *CfgSpec
+	sl  *swapLog
 }
 
 func NewLongLived(cfg *CfgSpec, ev policy.Evaluator, rec metrics.Recorder) (*LongLived, error) {
@@ -763,6 +764,92 @@ func (l *LongLived) ServeChecked(req *ReqSpec, w *WorldSpec) (resp *admissionv1.
 	for name, p := range admission.VerifSharedResponses() {
 		if p == resp {
 			shared = map[string]string{"allowed": "SharedAllowed", "privileged": "SharedPrivileged", "user": "SharedUser", "namespace": "SharedNamespace", "runtimeClass": "SharedRuntimeClass"}[name]
+		}
+	}
+	return
+}
+
+// ---------------------------------------------------------------- long-lived instance over real sources (src stream)
+
+// swapLog routes the effect log of a sequentially used long-lived instance to the current request's logger.
+type swapLog struct{ p atomic.Pointer[logger] }
+
+func (s *swapLog) add(e Event) {
+	if l := s.p.Load(); l != nil {
+		l.add(e)
+	}
+}
+
+type swapEvaluator struct {
+	inner policy.Evaluator
+	sl    *swapLog
+}
+
+func (r swapEvaluator) EvaluatePod(lv api.LevelVersion, meta *metav1.ObjectMeta, spec *corev1.PodSpec) []policy.CheckResult {
+	r.sl.add(Event{Kind: "eval", LV: lv, Pod: meta.Name})
+	return r.inner.EvaluatePod(lv, meta, spec)
+}
+
+type swapMetrics struct{ sl *swapLog }
+
+func (m swapMetrics) RecordEvaluation(d metrics.Decision, lv api.LevelVersion, mode metrics.Mode, _ api.Attributes) {
+	m.sl.add(Event{Kind: "meval", Deny: d == metrics.DecisionDeny, LV: lv, Mode: string(mode)})
+}
+func (m swapMetrics) RecordExemption(api.Attributes) { m.sl.add(Event{Kind: "mexempt"}) }
+func (m swapMetrics) RecordError(fatal bool, _ api.Attributes) {
+	m.sl.add(Event{Kind: "merror", Fatal: fatal})
+}
+
+type logGetter struct {
+	inner admission.NamespaceGetter
+	sl    *swapLog
+}
+
+func (g logGetter) GetNamespace(ctx context.Context, name string) (*corev1.Namespace, error) {
+	g.sl.add(Event{Kind: "nslookup"})
+	return g.inner.GetNamespace(ctx, name)
+}
+
+type logLister struct {
+	inner admission.PodLister
+	sl    *swapLog
+}
+
+func (l logLister) ListPods(ctx context.Context, ns string) ([]*corev1.Pod, error) {
+	d, has := ctx.Deadline()
+	l.sl.add(Event{Kind: "list", Deadline: d, HasDL: has})
+	return l.inner.ListPods(ctx, ns)
+}
+
+// NewLongLivedWith builds a long-lived Admission around the given (real) namespace getter and pod
+// lister; every dependency, evaluator and metrics call is logged to the request being served.
+// The instance must be used sequentially.
+func NewLongLivedWith(cfg *CfgSpec, ev policy.Evaluator, _ metrics.Recorder, getter admission.NamespaceGetter, lister admission.PodLister) (*LongLived, error) {
+	sl := &swapLog{}
+	a, err := NewAdmission(cfg, swapEvaluator{ev, sl}, swapMetrics{sl}, logGetter{getter, sl}, logLister{lister, sl})
+	if err != nil {
+		return nil, err
+	}
+	return &LongLived{A: a, Cfg: cfg, sl: sl}, nil
+}
+
+// ServeObs answers one request on an instance built by NewLongLivedWith and returns its observation.
+func (l *LongLived) ServeObs(ctx context.Context, req *ReqSpec) (obs Obs) {
+	defer func() {
+		if e := recover(); e != nil {
+			obs.Panic = fmt.Sprint(e)
+		}
+	}()
+	log := &logger{}
+	l.sl.p.Store(log)
+	defer l.sl.p.Store(nil)
+	obs.T0 = time.Now()
+	obs.Resp = l.A.Validate(ctx, AttrsFor(l.Cfg, req, log))
+	obs.Trace = log.events
+	obs.Shared = "Fresh"
+	for name, p := range admission.VerifSharedResponses() {
+		if p == obs.Resp {
+			obs.Shared = map[string]string{"allowed": "SharedAllowed", "privileged": "SharedPrivileged", "user": "SharedUser", "namespace": "SharedNamespace", "runtimeClass": "SharedRuntimeClass"}[name]
 		}
 	}
 	return
